@@ -8,3 +8,13 @@ def seq(v):
     if v not in _seen:
         _seen[v] = len(_seen)
     return 'k%d' % _seen[v]
+
+
+# a generator that takes only a constant: one call per row gives one key per row
+_ticks = []
+
+
+@udf(fun_id='http://ex.org/fn/tick', prefix='http://ex.org/fn/p_prefix')
+def tick(prefix):
+    _ticks.append(prefix)
+    return '%s%d' % (prefix, len(_ticks))
